@@ -6,9 +6,10 @@ package dbSync
 //vf:job C08 quick VF_C08_PipeCopy reads=1..3 waitfull=0..1
 //vf:job C08 quick VF_C08_Reconnect nrdb=0..1 c08=1
 //vf:job C08 quick VF_C08_AckAfterRdb nrdb=1..3
+//vf:job C08 quick VF_C08_ReconnectRefused reply=0..2
 //vf:replayE C08 VF_C08_AckAfterRdb
 //vf:job C05 quick VF_C08_Reconnect nrdb=0..3
-//vf:replayE C08 VF_C08_PipeCopy VF_C08_Reconnect
+//vf:replayE C08 VF_C08_PipeCopy VF_C08_Reconnect VF_C08_ReconnectRefused
 //vf:replayE C05 VF_C08_Reconnect
 //vf:opt C08 preempt=1 thorough_preempt=2
 //vf:stub C08 source connection: scripted net.Conn (reads of symbolic size, then a read error = connection drop); time.NewTicker: channel fed by the harness between reads (every position of the 1 s tick relative to the traffic); utils.OpenNetConnSoft/AuthPassword/SendPSyncListeningPort: scripted second connection; metric.GetMetric: private object
@@ -285,4 +286,76 @@ func VF_C08_AckAfterRdb() {
 	acks := vfAckOffsets(c1.written)
 	vfAssert(acks[0] == start+int64(len(cmd1)), "first acknowledgement after the full sync is not start offset + stream bytes received (RDB bytes must not count, stream bytes must all count)")
 	vfAssertTwin(acks[0] == 0, "twin")
+}
+
+// a reconnect whose PSYNC is refused (error reply, unexpected reply, or a drop during the handshake),
+// then one that is accepted: nothing was received in between, so both requests name the same offset,
+// and the stream continues without a gap
+func VF_C08_ReconnectRefused() {
+	vfStubEnv()
+	tick := make(chan time.Time)
+	vfStub("time.NewTicker", func(d time.Duration) *time.Ticker { return &time.Ticker{C: tick} })
+	conf.Options.HttpProfile = 0
+	start := int64(500)
+	cmd1 := vfBytes("cmd1", 2)
+	cmd2 := vfBytes("cmd2", 2)
+	c1 := &vfNetConn{tick: tick, chunks: [][]byte{cmd1}}
+	refusal := [][]byte{[]byte("-LOADING Redis is loading the dataset in memory\r\n"), []byte("+CONTINUE 8371b4fb1155b71f4a04d3e1bc3e18c4a990aeeb\r\n"), nil}[vfParam("reply", 0)]
+	c2 := &vfNetConn{tick: tick}
+	if refusal != nil {
+		c2.chunks = [][]byte{refusal}
+	}
+	c3 := &vfNetConn{tick: tick, chunks: [][]byte{append([]byte("+CONTINUE\r\n"), cmd2...)}, park: true}
+	opened := 0
+	vfStub("github.com/alibaba/RedisShake/redis-shake/common.OpenNetConnSoft", func(target, authType, passwd string, tls bool) net.Conn {
+		opened++
+		switch opened {
+		case 1:
+			return c2
+		case 2:
+			return c3
+		}
+		vfPark()
+		return nil
+	})
+	vfStub("github.com/alibaba/RedisShake/redis-shake/common.AuthPassword", func(c net.Conn, authType, passwd string) error { return nil })
+	vfStub("github.com/alibaba/RedisShake/redis-shake/common.SendPSyncListeningPort", func(c net.Conn, port int) {})
+	ds := &DbSyncer{id: 0, node: &slot.SyncNode{Source: "s:1"}, WaitFull: make(chan struct{})}
+	close(ds.WaitFull)
+	ds.sourceOffset = start
+	piper, pipew := pipe.NewSize(1)
+	br := bufio.NewReaderSize(c1, 64)
+	bw := bufio.NewWriterSize(c1, 64)
+	go ds.runIncrementalSync(c1, br, bw, 0, "run-1", "s:1", "auth", "pw", false, pipew, true)
+	want := append(append([]byte{}, cmd1...), cmd2...)
+	got := make([]byte, 0, len(want))
+	buf := make([]byte, 8)
+	for len(got) < len(want) {
+		n, err := piper.Read(buf)
+		vfAssert(err == nil, "pipe closed before the stream was delivered")
+		if err != nil {
+			return
+		}
+		got = append(got, buf[:n]...)
+	}
+	vfAssert(vfEqBytes(got, want), "the command parser does not see exactly the bytes sent, in order, across the refused and the accepted reconnect")
+	psyncOffset := func(c *vfNetConn) (int64, bool) {
+		for _, w := range c.written {
+			if strings.Contains(strings.ToLower(string(w)), "psync") {
+				parts := strings.Split(strings.TrimRight(string(w), "\r\n"), "\r\n")
+				if len(parts) >= 7 {
+					o, err := strconv.ParseInt(parts[len(parts)-1], 10, 64)
+					return o, err == nil && parts[4] == "run-1"
+				}
+			}
+		}
+		return 0, false
+	}
+	o2, ok2 := psyncOffset(c2)
+	o3, ok3 := psyncOffset(c3)
+	vfAssert(ok2 && ok3, "no PSYNC request naming the run id on a re-established connection")
+	if ok2 && ok3 {
+		vfAssert(o3 == o2, "a refused PSYNC changed the offset that the next reconnect asks for although nothing was received in between")
+	}
+	vfAssertTwin(len(got) == 0, "twin")
 }
